@@ -11,7 +11,7 @@ REFUTED_MSGS = (
     "postcondition not satisfied", "precondition not satisfied", "assertion failed",
     "invariant not satisfied", "possible arithmetic underflow/overflow", "possible division by zero",
     "decreases not satisfied", "possible bit shift underflow/overflow", "unreachable",
-    "recommendation not met", "loop invariant not satisfied", "assertion failed in",
+    "recommendation not met", "precondition not met", "loop invariant not satisfied", "assertion failed in",
     "could not prove termination", "possible arithmetic", "may not terminate",
 )
 UNDECIDED_MSGS = ("rlimit exceeded", "Resource limit", "resource limit", "timed out", "while loop: Resource limit")
